@@ -43,3 +43,38 @@ package lib
 
 //@ lib func strconv.Itoa(i int) (s string)
 //@   pure
+
+// bytes.Buffer as an output sequence: ghost fields $out (the runes written so far) and $n (how many).
+// WriteString is specified for ASCII strings only; other strings just extend the output.
+//@ ghostfield bytes.Buffer.$out [0]rune
+//@ ghostfield bytes.Buffer.$n int
+//@ spec func AsciiStr(s string) bool = forall i int :: 0 <= i && i < len(s) ==> s[i] < 128
+//@ lib func (b *bytes.Buffer) WriteRune(r rune) (n int, err error)
+//@   requires b != nil
+//@   modifies b.$n, b.$out[*]
+//@   ensures b.$n == old(b.$n) + 1 && b.$out[old(b.$n)] == r
+//@   ensures forall k int :: 0 <= k && k < old(b.$n) ==> b.$out[k] == old(b.$out[k])
+//@ lib func (b *bytes.Buffer) WriteString(s string) (n int, err error)
+//@   requires b != nil
+//@   modifies b.$n, b.$out[*]
+//@   ensures b.$n >= old(b.$n)
+//@   ensures forall k int :: 0 <= k && k < old(b.$n) ==> b.$out[k] == old(b.$out[k])
+//@   ensures AsciiStr(s) ==> b.$n == old(b.$n) + len(s) && forall i int :: 0 <= i && i < len(s) ==> b.$out[old(b.$n) + i] == s[i]
+//@   ensures[first8] AsciiStr(s) ==> (len(s) > 0 ==> b.$out[old(b.$n)] == s[0]) && (len(s) > 1 ==> b.$out[old(b.$n)+1] == s[1]) && (len(s) > 2 ==> b.$out[old(b.$n)+2] == s[2]) &&
+//@             (len(s) > 3 ==> b.$out[old(b.$n)+3] == s[3]) && (len(s) > 4 ==> b.$out[old(b.$n)+4] == s[4]) && (len(s) > 5 ==> b.$out[old(b.$n)+5] == s[5]) &&
+//@             (len(s) > 6 ==> b.$out[old(b.$n)+6] == s[6]) && (len(s) > 7 ==> b.$out[old(b.$n)+7] == s[7])
+
+//@ lib func strings.ContainsRune(s string, r rune) (b bool)
+//@   pure
+//@   ensures AsciiStr(s) ==> (b == (exists i int :: 0 <= i && i < len(s) && s[i] == r))
+
+// strconv.FormatInt(v, 16) for 0 <= v < 16^6: minimal-length lower-case hexadecimal
+//@ spec func HexLen(v int) int = ite(v < 16, 1, ite(v < 256, 2, ite(v < 4096, 3, ite(v < 65536, 4, ite(v < 1048576, 5, 6)))))
+//@ spec func NibbleAt(v int, k int) int = ite(k == 0, v % 16, ite(k == 1, (v / 16) % 16, ite(k == 2, (v / 256) % 16, ite(k == 3, (v / 4096) % 16, ite(k == 4, (v / 65536) % 16, (v / 1048576) % 16)))))
+//@ spec func HexDigitCh(d int) int = ite(d < 10, 48 + d, 87 + d)
+//@ lib func strconv.FormatInt(i int64, base int) (s string)
+//@   pure
+//@   ensures base == 16 && 0 <= i && i < 16777216 ==> AsciiStr(s) && len(s) == HexLen(i) && forall k int :: 0 <= k && k < len(s) ==> s[k] == HexDigitCh(NibbleAt(i, len(s) - 1 - k))
+//@   ensures[digits] base == 16 && 0 <= i && i < 16777216 ==> (len(s) > 0 ==> s[0] == HexDigitCh(NibbleAt(i, len(s) - 1))) && (len(s) > 1 ==> s[1] == HexDigitCh(NibbleAt(i, len(s) - 2))) &&
+//@             (len(s) > 2 ==> s[2] == HexDigitCh(NibbleAt(i, len(s) - 3))) && (len(s) > 3 ==> s[3] == HexDigitCh(NibbleAt(i, len(s) - 4))) &&
+//@             (len(s) > 4 ==> s[4] == HexDigitCh(NibbleAt(i, len(s) - 5))) && (len(s) > 5 ==> s[5] == HexDigitCh(NibbleAt(i, len(s) - 6)))
